@@ -306,10 +306,175 @@ def nt_inst():
     return ntcore.NetworkTableInstance.getDefault()
 
 
-def make_class(mt, decls, name="Gen", split=0):
-    """a class with the tunables `decls` (dict: attr default hint form flavor subtable wd);
+# ---- how a class with tunables is WRITTEN ---------------------------------------
+#   form (per tunable, how the hint H is attached):
+#     0  x = tunable[H](d)          1  x: ClassVar[tunable[H]] = tunable(d)
+#     2  x: tunable[H] = tunable(d) 3  x: H = tunable(d)          4  x: ClassVar[H] = tunable(d)
+#   src (per class, how the class statement is produced):
+#     0  type(name, bases, ns) with evaluated annotation objects
+#     1  a real module: generated source text, exec'd in a fresh module registered in sys.modules
+#     2  the same with `from __future__ import annotations` (PEP 563: EVERY annotation is a str)
+#   q (per tunable, only in a module): 0 as is, 1 the whole annotation in quotes,
+#     2 the argument of the outermost subscript in quotes (ClassVar["tunable[H]"], list["float"])
+BASE_SRC = {"bool": "bool", "int": "int", "float": "float", "str": "str", "bytes": "bytes",
+            "T2": "Translation2d", "T3": "Translation3d", "other": "complex"}
+SRC_HEADER = ("import typing, collections.abc\n"
+              "from typing import ClassVar, List, Tuple\n"
+              "from collections.abc import Sequence\n"
+              "from wpimath.geometry import Translation2d, Translation3d\n")
+_SRC_NS = {}
+
+
+def src_ns():
+    """the names a generated module can use in annotations (same as SRC_HEADER provides)."""
+    if not _SRC_NS:
+        exec(SRC_HEADER, _SRC_NS)
+    return _SRC_NS
+
+
+def hint_src(h, flavor=0, quote_args=False):
+    """source text of the hint; evaluates to hint_to_py(h, flavor) (checked by check_hint_sources)."""
+    if h[0] == "base":
+        return BASE_SRC[h[1]]
+    if h[0] == "bare":
+        return {"list": "list", "tuple": "tuple", "seq": "Sequence"}[h[1]]
+    o, args = h[1], h[2]
+    if not args:
+        return "typing.List" if o == "list" else "tuple[()]"
+    a = ", ".join("..." if x == "..." else (repr(BASE_SRC[x]) if quote_args else BASE_SRC[x]) for x in args)
+    if flavor == 1:
+        cand = None
+        if o == "list" and len(args) == 1:
+            cand = "List[%s]" % a
+        elif o == "tuple":
+            cand = "Tuple[%s]" % a
+        elif o == "seq" and len(args) == 1:
+            cand = "typing.Sequence[%s]" % a
+        if cand is not None:
+            try:
+                eval(cand, dict(src_ns()))
+                return cand
+            except TypeError:
+                pass
+    return {"list": "list[%s]", "tuple": "tuple[%s]", "seq": "Sequence[%s]"}[o] % a
+
+
+def fwd_quotable(h, form):
+    """is there an outermost subscript argument to put in quotes?"""
+    if form in (1, 2, 4):
+        return True
+    return h[0] == "gen" and bool(h[2]) and any(x != "..." for x in h[2])
+
+
+def ann_src(h, form, flavor, q):
+    """source text of the annotation of `x: <ann> = tunable(d)` (forms 1-4)."""
+    H = hint_src(h, flavor)
+    if q == 2 and fwd_quotable(h, form):
+        if form == 1:
+            return "ClassVar[%r]" % ("tunable[%s]" % H)
+        if form == 2:
+            return "tunable[%r]" % H
+        if form == 4:
+            return "ClassVar[%r]" % H
+        return hint_src(h, flavor, quote_args=True)
+    full = {1: "ClassVar[tunable[%s]]", 2: "tunable[%s]", 3: "%s", 4: "ClassVar[%s]"}[form] % H
+    return repr(full) if q else full
+
+
+def eff_src(decls, src):
+    """quoting needs source text: a type() class with a quoted tunable is written as a module;
+    attribute names that are not identifiers can only be set through type()."""
+    if not all(d["attr"].isidentifier() and not d["attr"].startswith("__") for d in decls):
+        return 0
+    if src == 0 and any(d.get("q") and d.get("hint") is not None and d.get("form", 0) != 0 for d in decls):
+        return 1
+    return src
+
+
+def spelling(d, src):
+    """(classvar, in_tunable, quoting) of the model's Model.spell for this tunable, None = subscript."""
+    form = d.get("form", 0)
+    if form == 0:
+        return None
+    q = d.get("q", 0) if src else 0
+    if src == 2 or q == 1 or (q == 2 and not fwd_quotable(d["hint"], form)):
+        quoting = "QStr"
+    elif q == 2:
+        quoting = "QFwd"
+    else:
+        quoting = "QObj"
+    return (form in (1, 4), form in (1, 2), quoting)
+
+
+def spelling_to_coq(sp):
+    if sp is None:
+        return "SpSubscript"
+    return "(SpAnn %s %s %s)" % (sp[2], coq_bool(sp[0]), coq_bool(sp[1]))
+
+
+def class_source(decls, name, split, src):
+    """(source text, {default variable: object}) of the module defining class `name`."""
+    env = {}
+    lines = []
+
+    def body(cname, base, ds, k0):
+        lines.append("class %s%s:" % (cname, "(%s)" % base if base else ""))
+        if not ds:
+            lines.append("    pass")
+        for k, d in enumerate(ds):
+            var = "_d%d" % (k0 + k)
+            env[var] = to_py(d["default"])
+            args = var
+            if d.get("wd") is not None:
+                args += ", writeDefault=%r" % bool(d["wd"])
+            if d.get("subtable") is not None:
+                args += ", subtable=%r" % d["subtable"]
+            h, form = d.get("hint"), d.get("form", 0)
+            if h is None:
+                lines.append("    %s = tunable(%s)" % (d["attr"], args))
+            elif form == 0:
+                lines.append("    %s = tunable[%s](%s)" % (d["attr"], hint_src(h, d.get("flavor", 0)), args))
+            else:
+                lines.append("    %s: %s = tunable(%s)" % (d["attr"], ann_src(h, form, d.get("flavor", 0), d.get("q", 0)), args))
+        lines.append("")
+
+    if split:
+        body(name + "Base", None, decls[:split], 0)
+        body(name, name + "Base", decls[split:], split)
+    else:
+        body(name, None, decls, 0)
+    head = ("from __future__ import annotations\n" if src == 2 else "") + SRC_HEADER
+    return head + "\n" + "\n".join(lines), env
+
+
+_MODN = [0]
+
+
+def make_class_src(mt, decls, name, split, src):
+    """the class statement as it stands in a user's module (typing.get_type_hints resolves string
+    annotations in sys.modules[cls.__module__].__dict__: the module is registered while it runs)."""
+    import types
+    text, env = class_source(decls, name, split, src)
+    _MODN[0] += 1
+    modname = "c09gen_%d" % _MODN[0]
+    mod = types.ModuleType(modname)
+    mod.__dict__.update(env)
+    mod.__dict__["tunable"] = mt.tunable
+    sys.modules[modname] = mod
+    try:
+        exec(compile(text, "<%s>" % modname, "exec"), mod.__dict__)
+    finally:
+        del sys.modules[modname]
+    return mod.__dict__[name]
+
+
+def make_class(mt, decls, name="Gen", split=0, src=0):
+    """a class with the tunables `decls` (dict: attr default hint form flavor q subtable wd);
     the first `split` of them live on a base class (dir(cls) must find them)."""
     import typing
+    src = eff_src(decls, src)
+    if src:
+        return make_class_src(mt, decls, name, split, src)
 
     def ns_of(ds):
         ns, ann = {}, {}
@@ -331,7 +496,8 @@ def make_class(mt, decls, name="Gen", split=0):
             else:
                 ns[d["attr"]] = mt.tunable(default, **kw)
                 ann[d["attr"]] = (typing.ClassVar[mt.tunable[ph]] if form == 1 else
-                                  mt.tunable[ph] if form == 2 else ph)
+                                  mt.tunable[ph] if form == 2 else
+                                  typing.ClassVar[ph] if form == 4 else ph)
         if ann:
             ns["__annotations__"] = ann
         return ns
@@ -340,6 +506,21 @@ def make_class(mt, decls, name="Gen", split=0):
     if split:
         bases = (type(name + "Base", (object,), ns_of(decls[:split])),)
     return type(name, bases, ns_of(decls[split:]))
+
+
+def check_hint_sources():
+    """harness self-check: the generated source text of every hint of the grid evaluates to the
+    object hint_to_py builds (both flavors), and the quoted-argument form to the same origin."""
+    bad = []
+    ns = dict(src_ns())
+    for h in grid_hints():
+        for fl in (0, 1):
+            try:
+                if eval(hint_src(h, fl), ns) != hint_to_py(h, fl):
+                    bad.append([h, fl])
+            except Exception as e:
+                bad.append([h, fl, repr(e)])
+    return bad
 
 
 def doc_key(prefix, cname, subtable, attr):
@@ -411,11 +592,22 @@ class NtWriter:
 
 
 # ---- the grid ---------------------------------------------------------------
-def grid_observe(mt, idx, d, h, form, flavor):
+# the ways a grid point is written: (form, ann); ann -> (src, q)
+ANN_MODES = {0: (0, 0), 1: (1, 0), 2: (2, 0), 3: (1, 1), 4: (1, 2), 5: (2, 1)}
+# quoting needs an annotation: the subscript form only varies in how the class statement is produced
+GRID_COMBOS = [(0, 0), (0, 1), (0, 2)] + [(f, a) for a in range(6) for f in (1, 2, 3, 4)]
+
+
+def grid_decl(d, h, form, flavor, ann):
+    src, q = ANN_MODES[ann]
+    return {"attr": "x", "default": d, "hint": h, "form": form, "flavor": flavor, "q": q}, src
+
+
+def grid_observe(mt, idx, d, h, form, flavor, ann=0):
     """GRaise | GCreated | GBound <type string read back from NT>"""
-    decl = {"attr": "x", "default": d, "hint": h, "form": form, "flavor": flavor}
+    decl, src = grid_decl(d, h, form, flavor, ann)
     try:
-        cls = make_class(mt, [decl], "Grid%d" % idx)
+        cls = make_class(mt, [decl], "Grid%d" % idx, 0, src)
     except Exception as e:
         return ["raise", type(e).__name__]
     # which topic does the documented table promise?  bind only when the default fits it
@@ -538,7 +730,7 @@ def gen_decl(r, attr, kind=None):
     empty_seq = kind[1] and not default[1]
     hint = gen_hint(r, kind, empty_seq)
     return {"attr": attr, "kind": list(kind), "default": default, "hint": hint,
-            "form": r.randrange(4), "flavor": r.randrange(2),
+            "form": r.randrange(5), "flavor": r.randrange(2), "q": r.choice([0, 0, 0, 1, 2]),
             "subtable": r.choice([None, None, None, "cfg", "s/t", "", "x"]),
             "wd": r.choice([True, True, False, None])}
 
@@ -550,8 +742,9 @@ NAME_POOL = ["a", "ab", "a_b", "b", "Mode A", "robot", "components", "x"]
 def gen_case(r, tag):
     """one history; `tag` makes every topic name of the case unique in the NT instance."""
     ncls = r.choice([1, 1, 2])
-    classes, split = [], []
+    classes, split, srcs = [], [], []
     for c in range(ncls):
+        srcs.append(r.choice([0, 1, 2, 2]))
         n = r.choice([1, 2, 3, 4, 5, 6])
         attrs = r.sample(ATTR_POOL, n)
         ds = [gen_decl(r, "%s_%s" % (a, tag)) for a in attrs]
@@ -654,7 +847,12 @@ def gen_case(r, tag):
     for key, ts, kind in known_keys[:8]:
         if r.random() < 0.5:
             ops.append(["ntr", key])
-    return {"tag": tag, "classes": classes, "split": split, "insts": insts, "ops": ops}
+    return {"tag": tag, "classes": classes, "split": split, "src": srcs, "insts": insts, "ops": ops}
+
+
+def case_src(case, k):
+    """how class k of the history is written (absent in old corpus files: type())."""
+    return (case.get("src") or [0] * len(case["classes"]))[k]
 
 
 def exec_case(mt, case):
@@ -663,9 +861,10 @@ def exec_case(mt, case):
     writer = NtWriter()
     keep.append(writer)
     try:
-        clss = [make_class(mt, ds, "Cls%d" % k, case["split"][k]) for k, ds in enumerate(case["classes"])]
+        clss = [make_class(mt, ds, "Cls%d" % k, case["split"][k], case_src(case, k))
+                for k, ds in enumerate(case["classes"])]
     except Exception as e:
-        return [["classraise", type(e).__name__]] * len(case["ops"])
+        return [["classraise", type(e).__name__, str(e)[:120]]] * len(case["ops"])
     objs = [clss[c]() for c in case["insts"]]
     isbound = set()
     kinds = [{d["attr"]: d["kind"] for d in case["classes"][c]} for c in case["insts"]]
@@ -741,14 +940,20 @@ def obs_to_coq(o):
     return "OBad"
 
 
-def decl_to_coq(d):
+def decl_to_coq(d, src=0):
+    """the declaration as WRITTEN: the model resolves the hint from the spelling
+    (Model.set_name_hint: __orig_class__ / get_type_hints / ClassVar, tunable unwrapping)."""
+    if d.get("hint") is None:
+        hint = "(set_name_hint (mksrc None None))"
+    else:
+        hint = "(set_name_hint (spell %s %s))" % (spelling_to_coq(spelling(d, src)), hint_to_coq(d["hint"]))
     return "(mkdecl %s %s %s %s %s)" % (
-        cs(d["attr"]), to_coq(d["default"]), coq_opt(d.get("hint"), hint_to_coq),
+        cs(d["attr"]), to_coq(d["default"]), hint,
         coq_opt(d.get("subtable"), coq_string), coq_bool(d.get("wd") is not False))
 
 
 def case_to_coq(case, obs):
-    lets = "".join("let c%d := %s in " % (k, coq_list([decl_to_coq(d) for d in ds]))
+    lets = "".join("let c%d := %s in " % (k, coq_list([decl_to_coq(d, eff_src(ds, case_src(case, k))) for d in ds]))
                    for k, ds in enumerate(case["classes"]))
     ops = []
     for op in case["ops"]:
@@ -795,7 +1000,17 @@ def oracle_case(case, obs):
         def fail(fp, what):
             return {"kind": "input", "fingerprint": fp, "op_index": n, "op": op, "observed": o,
                     "what": "op %d %s: %s" % (n, json.dumps(op), what)}
-        if o[0] in ("bad", "classraise"):
+        if o[0] == "classraise":
+            # the class statement itself raised: every tunable of the history's classes has a
+            # documented topic type (default or hint, however the hint is written)?
+            unsupported = [d["attr"] for ds in case["classes"] for d in ds if doc_topic(d["default"], d["hint"]) is None]
+            if not unsupported:
+                v = fail("c09-supported-type-rejected", "")
+                v["what"] = ("defining the class raised %s (%s); every tunable in it has a documented topic type "
+                             "(from its default or its type hint): %s" % (o[1], o[2] if len(o) > 2 else "", describe_classes(case)))
+                return v
+            return fail("c09-unusable", "class with unsupported tunables %s: %r" % (unsupported, o))
+        if o[0] == "bad":
             return fail("c09-unusable", "implementation produced %r" % (o,))
         if op[0] == "setup":
             if o != ["setup", True]:
@@ -837,6 +1052,26 @@ def oracle_case(case, obs):
                             "an independent subscriber at %s sees %s, the property (documented key, topic type, "
                             "writeDefault, latest write) requires %s" % (op[1], json.dumps(o[1]), json.dumps(want)))
     return None
+
+
+def describe_decl(d, src):
+    """one line: the tunable as written."""
+    h, form = d.get("hint"), d.get("form", 0)
+    if h is None:
+        return "%s = tunable(%s)" % (d["attr"], json.dumps(d["default"]))
+    if form == 0:
+        return "%s = tunable[%s](%s)" % (d["attr"], hint_src(h, d.get("flavor", 0)), json.dumps(d["default"]))
+    return "%s: %s = tunable(%s)" % (d["attr"], ann_src(h, form, d.get("flavor", 0), d.get("q", 0) if src else 0),
+                                     json.dumps(d["default"]))
+
+
+def describe_classes(case):
+    out = []
+    for k, ds in enumerate(case["classes"]):
+        src = eff_src(ds, case_src(case, k))
+        how = {0: "type()", 1: "module", 2: "module with `from __future__ import annotations`"}[src]
+        out.append("[%s] %s" % (how, "; ".join(describe_decl(d, src) for d in ds)))
+    return " | ".join(out)
 
 
 def strip_case(case):
@@ -887,6 +1122,29 @@ def shrink_case(mt, case, fresh_tag, budget=150):
                 if v is not None and v["fingerprint"] == fp:
                     best, changed = cand, True
                     ds = best["classes"][ci]
+    # the spelling: is the way the class / the hint is written needed for the failure?
+    for ci in range(len(best["classes"])):
+        for simpler in (0, 1):
+            if budget <= 0 or case_src(best, ci) <= simpler:
+                continue
+            cand = json.loads(json.dumps(best))
+            cand["src"] = [case_src(best, k) for k in range(len(best["classes"]))]
+            cand["src"][ci] = simpler
+            budget -= 1
+            v = failing(cand)
+            if v is not None and v["fingerprint"] == fp:
+                best = cand
+                break
+        for k in range(len(best["classes"][ci])):
+            for field in ("q", "form", "flavor"):
+                if budget <= 0 or not best["classes"][ci][k].get(field):
+                    continue
+                cand = json.loads(json.dumps(best))
+                cand["classes"][ci][k][field] = 0
+                budget -= 1
+                v = failing(cand)
+                if v is not None and v["fingerprint"] == fp:
+                    best = cand
     c2 = retag(best, fresh_tag())
     return c2, oracle_case(c2, exec_case(mt, c2))
 
@@ -1078,11 +1336,12 @@ def feedback_key_cases(ctx, prefix="fb"):
 # MagicRobot binds components, autonomous modes and itself (one real robot, own process)
 # ---------------------------------------------------------------------------
 ROBOT_SRC = '''
-import json, sys
+import json, sys, typing
 import magicbot, ntcore
 from magicbot import tunable
 class Comp:
     gainC09 = tunable(3)
+    idsC09: "typing.Sequence[int]" = tunable(())
     flagC09 = tunable(True, subtable="cfg")
     def execute(self): pass
 class R(magicbot.MagicRobot):
@@ -1098,11 +1357,12 @@ out = {"topics": sorted([t.getName(), t.getTypeString()] for t in inst.getTopics
        "left": r.left.gainC09, "right": r.right.gainC09}
 print("C09JSON" + json.dumps(out))
 '''
-MODE_SRC = '''
+MODE_SRC = '''from __future__ import annotations
 from magicbot import AutonomousStateMachine, state, tunable
 class ModeA(AutonomousStateMachine):
     MODE_NAME = "Mode A"
     speedC09 = tunable(0.5)
+    ratesC09: list[float] = tunable([])
     burstC09 = tunable([1, 2], subtable="cfg")
     @state(first=True)
     def go(self): pass
@@ -1112,11 +1372,16 @@ ROBOT_EXPECT = [  # (owner, subtable, attr, ntype)
     ('(OComponent "left")', '(Some "cfg")', "flagC09", "NBoolean"), ('(OComponent "right")', '(Some "cfg")', "flagC09", "NBoolean"),
     ("ORobot", "None", "topC09", "NString"), ("ORobot", '(Some "s/t")', "limC09", "NDoubleArr"),
     ('(OAutonomous "Mode A")', "None", "speedC09", "NDouble"), ('(OAutonomous "Mode A")', '(Some "cfg")', "burstC09", "NIntegerArr"),
+    # string annotations: a quoted hint in the component, a postponed one (PEP 563) in the mode's module
+    ('(OComponent "left")', "None", "idsC09", "NIntegerArr"), ('(OComponent "right")', "None", "idsC09", "NIntegerArr"),
+    ('(OAutonomous "Mode A")', "None", "ratesC09", "NDoubleArr"),
 ]
 ROBOT_DOC = {"/components/left/gainC09": "int", "/components/right/gainC09": "int",
              "/components/left/cfg/flagC09": "boolean", "/components/right/cfg/flagC09": "boolean",
              "/robot/topC09": "string", "/robot/s/t/limC09": "double[]",
-             "/autonomous/Mode A/speedC09": "double", "/autonomous/Mode A/cfg/burstC09": "int[]"}
+             "/autonomous/Mode A/speedC09": "double", "/autonomous/Mode A/cfg/burstC09": "int[]",
+             "/components/left/idsC09": "int[]", "/components/right/idsC09": "int[]",
+             "/autonomous/Mode A/ratesC09": "double[]"}
 
 
 def run_robot(work):
@@ -1170,7 +1435,8 @@ def retag(case, tag):
     return c
 
 
-def grid_file(observed):
+def grid_file(observed, pattern):
+    """pattern: the (form, ann) combos the points were written in, point i uses pattern[i % len]."""
     global _STRTAB
     _STRTAB = StrTab()
     try:
@@ -1180,9 +1446,17 @@ def grid_file(observed):
         _STRTAB = None
     body = "".join("Definition o%d : list gobs := %s.\n" % (k, c) for k, c in enumerate(chunks))
     cat = " ++ ".join("o%d" % k for k in range(len(chunks)))
+    sps = []
+    for form, ann in pattern:
+        src, q = ANN_MODES[ann]
+        # (the hint-dependent fallback of q=2 is QStr in the model: same resolution)
+        sps.append(spelling_to_coq(None if form == 0 else
+                                   (form in (1, 4), form in (1, 2), "QStr" if (src == 2 or q == 1) else "QFwd" if q == 2 else "QObj")))
     return (CASES_HEADER + defs + body +
             "Definition observed : list gobs := (%s)%%list.\n"
-            "Eval vm_compute in (bad_grid grid_decls observed).\n" % cat)
+            "Definition pattern : list spelling := %s.\n"
+            "Eval vm_compute in (bad_grid grid_decls observed).\n"
+            "Eval vm_compute in (bad_grid_src pattern grid_decls observed).\n" % (cat, coq_list(sps)))
 
 
 def is_nontrivial(case, obs):
@@ -1251,7 +1525,11 @@ def run(ctx):
     ctx.assumptions.append(
         "C09: ntcore modelled as a finite map key -> (type, value); type conflicts on an existing topic, values that "
         "do not fit the topic type, unpublishing and the network are ntcore behaviour outside the model; "
-        "typing.get_type_hints / __orig_class__ unwrapping enters the model as the already unwrapped hint; "
+        "the hint enters the model as it is WRITTEN (subscript / annotation H, tunable[H], ClassVar[..]; evaluated, "
+        "postponed by `from __future__ import annotations`, quoted, quoted argument) and Model.set_name_hint resolves it; "
+        "a string annotation is identified with the expression it denotes (its names resolve in the module namespace "
+        "typing.get_type_hints evaluates it in; unresolvable names, annotations inherited from a base class and a "
+        "quoted subscript tunable['H'](..) are outside the generated domain); "
         "floats restricted to multiples of 1/64, strings to ASCII; pyntcore's StructArrayEntry.get() returns the "
         "entry default for an EMPTY stored array (observed, not /repo code): empty struct arrays are only generated as defaults")
     ctx.prove()
@@ -1266,25 +1544,49 @@ def run(ctx):
     fcs, fobs, fbad = feedback_key_cases(ctx)
 
     # ---- the type grid, exhaustive over Model.grid_decls ---------------
+    badsrc = check_hint_sources()
+    ctx.obligation("harness:generated hint source text evaluates to the hint object (all grid hints, both flavors)",
+                   not badsrc, json.dumps(badsrc[:5]))
     grid = grid_decls()
-    passes = [None] if quick else [0, 1, 2, 3]
+    # quick: one pass, point i written in combo GRID_COMBOS[i % 27]; thorough: one pass per combo
+    passes = [GRID_COMBOS] if quick else [[c] for c in GRID_COMBOS]
     gobs_all, gbad = [], []
-    for pi, form in enumerate(passes):
+
+    def grid_point(pi, idx):
+        form, ann = passes[pi][idx % len(passes[pi])]
+        return form, (idx // 4 + pi) % 2, ann
+
+    for pi in range(len(passes)):
         observed = []
         for idx, (d, h) in enumerate(grid):
-            f = idx % 4 if form is None else form
-            observed.append(grid_observe(mt, idx + pi * len(grid), d, h, f, (idx // 4 + pi) % 2))
+            form, flavor, ann = grid_point(pi, idx)
+            observed.append(grid_observe(mt, idx + pi * len(grid), d, h, form, flavor, ann))
             ctx.count("grid:%s" % observed[-1][0])
+            ctx.count("grid:written=form%d/ann%d" % (form, ann))
         gobs_all.append(observed)
-    res = ctx.coq_files_parallel([("grid_%d" % pi, grid_file(o)) for pi, o in enumerate(gobs_all)])
+    res = ctx.coq_files_parallel([("grid_%d" % pi, grid_file(o, passes[pi])) for pi, o in enumerate(gobs_all)])
     for pi in range(len(passes)):
         rc, out = res["grid_%d" % pi]
         lists = parse_eval_lists(out) if rc == 0 else []
-        ok = rc == 0 and len(lists) == 1 and lists[0] == []
-        ctx.obligation("corr:grid_%d (decl_topic == class statement + type string read back, all %d grid points)"
-                       % (pi, len(grid)), ok, out[-1500:])
-        if rc == 0 and lists and lists[0]:
-            gbad += [(pi, i) for i in lists[0]]
+        ok = rc == 0 and len(lists) == 2 and lists[0] == [] and lists[1] == []
+        ctx.obligation("corr:grid_%d (decl_topic / decl_topic_src of the spelling == class statement + type string "
+                       "read back, all %d grid points)" % (pi, len(grid)), ok, out[-1500:])
+        if rc == 0 and len(lists) == 2 and (lists[0] or lists[1]):
+            gbad += [(pi, i) for i in sorted(set(lists[0]) | set(lists[1]))]
+
+    def grid_violation(pi, i):
+        d, h = grid[i]
+        g = gobs_all[pi][i]
+        r = oracle_grid(d, h, g)
+        if not r:
+            return None
+        form, flavor, ann = grid_point(pi, i)
+        decl, src = grid_decl(d, h, form, flavor, ann)
+        return {"kind": "grid", "fingerprint": r[0], "default": d, "hint": h, "form": form, "flavor": flavor,
+                "ann": ann, "observed": g,
+                "what": "%s   written as [%s] %s" % (r[1], {0: "type()", 1: "module", 2: "module with `from __future__ "
+                                                       "import annotations`"}[eff_src([decl], src)],
+                                                  describe_decl(decl, eff_src([decl], src)))}
 
     # ---- MagicRobot binds the three owner kinds -------------------------
     rob, rlog = run_robot(ctx.work)
@@ -1313,8 +1615,16 @@ def run(ctx):
             if op[0] == "setup":
                 ctx.count("owner=%s" % (op[2] if op[2] in ("components", "autonomous") else
                                         "robot" if op[3] == "robot" else "prefix-None-other" if op[2] is None else "other-prefix"))
-        for ds in c["classes"]:
+        for k, ds in enumerate(c["classes"]):
+            es = eff_src(ds, case_src(c, k))
+            ctx.count("class-written=%s" % {0: "type()", 1: "module", 2: "module+future-annotations"}[es])
             for d in ds:
+                if d.get("hint") is not None:
+                    sp = spelling(d, es)
+                    ctx.count("hint-spelling=%s" % ("subscript" if sp is None else
+                                                    "%s%s%s" % (sp[2], "/ClassVar" if sp[0] else "", "/tunable[]" if sp[1] else "")))
+                else:
+                    ctx.count("hint-spelling=none")
                 ctx.count("kind=%s%s" % (d["kind"][0], "[]" if d["kind"][1] else ""))
                 ctx.count("writeDefault=%s" % d["wd"])
                 ctx.count("subtable=%s" % ("none" if d["subtable"] is None else "empty" if d["subtable"] == "" else "yes"))
@@ -1340,14 +1650,16 @@ def run(ctx):
         "traces_validated_against_impl": len(pairs),
         "observations_compared": nobs,
         "distinct_nontrivial": len(distinct),
-        "rule": "histories: 1-2 generated classes (type()) with 1-6 tunables over {bool,int,float,str,bytes,struct x2} x "
-                "{scalar,array}, hints in 4 syntactic forms, subtables, writeDefault True/False/absent, inherited and "
+        "rule": "histories: 1-2 generated classes (type(), or the source text of a module exec'd, half of those with "
+                "`from __future__ import annotations`) with 1-6 tunables over {bool,int,float,str,bytes,struct x2} x "
+                "{scalar,array}, hints in 5 syntactic forms x {evaluated, postponed, quoted, quoted argument}, subtables, writeDefault True/False/absent, inherited and "
                 "private tunables; 1-3 instances under components/autonomous/robot/other prefixes, pre-published topics, "
                 "6-27 interleaved PyWrite/PyRead/NtWrite/NtRead/re-Setup ops, closing reads; non-trivial = >=2 setups and "
                 "all four of PyWrite, PyRead, NtWrite, NtRead occur; distinct up to the per-case name tag",
         "exhaustive": False,
         "exhaustive_parts": ["type grid: all %d points of Model.grid_decls (159 defaults x (no hint + 237 hints))%s"
-                             % (len(grid), "" if quick else " in each of the 4 hint forms"),
+                             % (len(grid), " (point i written in spelling i mod %d)" % len(GRID_COMBOS) if quick
+                                else " in each of the %d spellings (form x how the annotation is stored)" % len(GRID_COMBOS)),
                              "feedback: all %d method-name shapes x %d explicit-key choices; every annotation of the grid"
                              % (len(FB_NAMES), len(FB_EXPLICIT))],
         "corpus_cases": ncorpus,
@@ -1362,16 +1674,17 @@ def run(ctx):
             if v:
                 return [v]
         for pi, i in gbad[:200]:
-            d, h = grid[i]
-            g = gobs_all[pi][i]
-            r = oracle_grid(d, h, g)
-            if r:
-                return [{"kind": "grid", "fingerprint": r[0], "what": r[1], "default": d, "hint": h,
-                         "form": (i % 4 if passes[pi] is None else passes[pi]), "flavor": (i // 4 + pi) % 2, "observed": g}]
+            v = grid_violation(pi, i)
+            if v:
+                return [v]
         for i in fbad[:200]:
             v = oracle_fcase(fcs[i], fobs[i])
             if v:
                 return [v]
+        if rob is None:
+            return [{"kind": "robot", "fingerprint": "c09-magicrobot-binding",
+                     "what": "a real MagicRobot with two components of one class, an autonomous mode and robot-level "
+                             "tunables (one quoted and one postponed type hint among them) does not come up: %s" % rlog[-400:]}]
         if rob is not None and not rob_ok:
             got = {k: ts for k, ts in rob["topics"]}
             if got != ROBOT_DOC or rob["left"] != 9 or rob["right"] != 3:
@@ -1385,11 +1698,10 @@ def run(ctx):
                 if v:
                     return [v]
         for pi, observed in enumerate(gobs_all):
-            for i, g in enumerate(observed):
-                r = oracle_grid(grid[i][0], grid[i][1], g)
-                if r:
-                    return [{"kind": "grid", "fingerprint": r[0], "what": r[1], "default": grid[i][0], "hint": grid[i][1],
-                             "form": (i % 4 if passes[pi] is None else passes[pi]), "flavor": (i // 4 + pi) % 2, "observed": g}]
+            for i in range(len(observed)):
+                v = grid_violation(pi, i)
+                if v:
+                    return [v]
         for fc, o in zip(fcs, fobs):
             v = oracle_fcase(fc, o)
             if v:
@@ -1414,6 +1726,12 @@ def replay(ctx, obj):
     kind = obj.get("kind")
     if kind == "input" and "case" in obj:
         c = retag(obj["case"], fresh_tag())
+        for k, ds in enumerate(c["classes"]):
+            es = eff_src(ds, case_src(c, k))
+            if es:
+                print(class_source(ds, "Cls%d" % k, c["split"][k], es)[0])
+            else:
+                print("Cls%d = type(...): %s" % (k, "; ".join(describe_decl(d, 0) for d in ds)))
         o = exec_case(mt, c)
         for op, ob in zip(c["ops"], o):
             print("  %-90s -> %s" % (json.dumps(op)[:90], json.dumps(ob)[:120]))
@@ -1425,7 +1743,10 @@ def replay(ctx, obj):
         print("the history satisfies C09 on this tree")
         return 0
     if kind == "grid":
-        g = grid_observe(mt, 0, obj["default"], obj["hint"], obj.get("form", 0), obj.get("flavor", 0))
+        decl, src = grid_decl(obj["default"], obj["hint"], obj.get("form", 0), obj.get("flavor", 0), obj.get("ann", 0))
+        if eff_src([decl], src):
+            print(class_source([decl], "Grid0", 0, eff_src([decl], src))[0])
+        g = grid_observe(mt, 0, obj["default"], obj["hint"], obj.get("form", 0), obj.get("flavor", 0), obj.get("ann", 0))
         r = oracle_grid(obj["default"], obj["hint"], g)
         print("tunable(%s) hint %s -> %s" % (json.dumps(obj["default"]), json.dumps(obj["hint"]), g))
         if r:
